@@ -50,7 +50,7 @@ def grid_prep_opt(opt, d=None, kind=float, reps=None):
     if opt is None:
         return None
 
-    if isinstance(opt, (int, float)):
+    if isinstance(opt, (int, float, np.integer, np.floating)):
         if d is None or d <= 0:
             raise ValueError('Invalid grid option')
         opt = np.ones(d, dtype=kind) * kind(opt)
